@@ -159,7 +159,7 @@ impl<const N: u32> PxE1<{ N }> {
                     float *= 0.5;
                     exp += 1;
                 }
-                let frac_length = (N - 3) as isize - (reg as isize);
+                let frac_length = (N as isize - 3) - (reg as isize);
                 if frac_length < 0 {
                     if reg == N - 2 {
                         bit_n_plus_one = exp != 0;
@@ -195,7 +195,7 @@ impl<const N: u32> PxE1<{ N }> {
                         let regime = if reg_s { ((1 << reg) - 1) << 1 } else { 1_u32 };
 
                         let mut u_z = (regime << (30 - reg))
-                            + ((exp as u32) << (29 - reg))
+                            + (((exp as u32) << 29) >> reg)
                             + (frac << (32 - N));
                         //minpos
                         if (u_z == 0) && (frac > 0) {
@@ -229,7 +229,7 @@ impl<const N: u32> PxE1<{ N }> {
                 exp += 1;
             }
 
-            let frac_length = (N - 3) as isize - (reg as isize);
+            let frac_length = (N as isize - 3) - (reg as isize);
             if frac_length < 0 {
                 if reg == N - 2 {
                     bit_n_plus_one = exp != 0;
@@ -266,7 +266,7 @@ impl<const N: u32> PxE1<{ N }> {
                     let regime = if reg_s { ((1 << reg) - 1) << 1 } else { 1_u32 };
 
                     let mut u_z =
-                        (regime << (30 - reg)) + ((exp as u32) << (29 - reg)) + (frac << (32 - N));
+                        (regime << (30 - reg)) + (((exp as u32) << 29) >> reg) + (frac << (32 - N));
                     //minpos
                     if (u_z == 0) && (frac > 0) {
                         u_z = 0x1 << (32 - N);
